@@ -248,7 +248,7 @@ pub fn explore(
                 term = term * (p - (i as f64 - 1.0)).max(1.0) / i as f64 * alt;
                 est += term;
             }
-            if est * 0.5 > (max_executions.saturating_sub(res.executions)) as f64 {
+            if est > (max_executions.saturating_sub(res.executions)) as f64 {
                 res.skipped_bound_estimate = Some((bound, est as u64));
                 break;
             }
